@@ -696,7 +696,15 @@ pub fn mutate(rng: &mut Rng, valid: &[u8], other: &[u8]) -> (Vec<u8>, Vec<&'stat
 /// arguments x fillers.  Calls `f` for each input (input is reused).
 pub fn head_sweep(f: &mut dyn FnMut(&[u8])) -> u64 {
     let fillers: &[&[u8]] = &[&[], &[0x00], &[0xff], &[0x01, 0x02, 0x03, 0x04], &[0x61, 0x62, 0x63, 0x64, 0x65, 0x66, 0x67, 0x68, 0x69], &[0xf6, 0xf6, 0xf6], &[0x9f, 0x9f, 0x9f, 0xff]];
-    let args: &[u64] = &[0, 1, 2, 3, 4, 23, 24, 255, 256, 65535, 65536, 999_999_999, 1_000_000_000, (1 << 31) - 1, 1 << 31, (1 << 32) - 1, 1 << 32, (1u64 << 63) - 1, 1 << 63, u64::MAX - 1, u64::MAX];
+    // integers on the width / range boundaries, then the bit patterns of floats on the same boundaries
+    // (as half, single and double: 2^31, 2^32, 2^63, 2^64, 1e9, -1, infinities, NaNs, subnormals)
+    let args: &[u64] = &[
+        0, 1, 2, 3, 4, 23, 24, 255, 256, 65535, 65536, 999_999_999, 1_000_000_000, (1 << 31) - 1, 1 << 31, (1 << 32) - 1, 1 << 32, (1u64 << 63) - 1, 1 << 63, u64::MAX - 1, u64::MAX,
+        0x3c00, 0x7bff, 0x7c00, 0xfc00, 0x7e00, 0x8001,
+        0x4f00_0000, 0x4f80_0000, 0x5f00_0000, 0x5f80_0000, 0x4e6e_6b28, 0xbf80_0000, 0x7f80_0000, 0xff80_0000, 0x7fc0_0000, 0x7f80_0001, 0x0000_0001, 0x7f7f_ffff,
+        0x41e0_0000_0000_0000, 0x41f0_0000_0000_0000, 0x43e0_0000_0000_0000, 0x43f0_0000_0000_0000, 0x41cd_cd65_0000_0000, 0xbff0_0000_0000_0000, 0x7ff0_0000_0000_0000, 0xfff0_0000_0000_0000, 0x7ff8_0000_0000_0000, 0x7ff0_0000_0000_0001, 0x0000_0000_0000_0001, 0x7fef_ffff_ffff_ffff,
+        0x43ef_ffff_ffff_ffff, 0x43f0_0000_0000_0001, 0x3ff0_0000_0000_0000,
+    ];
     let mut n = 0u64;
     let mut buf: Vec<u8> = Vec::with_capacity(32);
     for ib in 0..=255u8 {
